@@ -207,7 +207,7 @@ def gen(rng, tier):
         for a in probe_atoms:
             for c in range(3):
                 rec = {"atom": a, "c": c}
-                for sgn, key in ((+1, "p"), (-1, "m")):
+                for sgn, key in ((+1, "p"), (-1, "m"), (+2, "p2"), (-2, "m2")):
                     q = list(Q[a]); q[c] += sgn * H
                     L.append(pos(a, q[0], q[1], q[2])); L.append("m.step cont"); rec[key] = len(L)
                 L.append(pos(a, Q[a][0], Q[a][1], Q[a][2]))
@@ -260,12 +260,19 @@ def oracle(case, out):
         f = vals(out, m["forces"], "f%d" % rec["atom"])
         if f is None:
             continue
-        fd = -(ep[0] - em[0]) / (2 * H)
+        fd1 = -(ep[0] - em[0]) / (2 * H)
+        fd = fd1; trunc = 0.0
+        ep2 = vals(out, rec.get("p2", -1), "energy"); em2 = vals(out, rec.get("m2", -1), "energy")
+        if ep2 is not None and em2 is not None:
+            # Richardson extrapolation; the difference between the two step sizes estimates the truncation error
+            fd2 = -(ep2[0] - em2[0]) / (4 * H)
+            fd = (4 * fd1 - fd2) / 3
+            trunc = abs(fd1 - fd2) / 3
         fa = f[rec["c"]]
         if not (math.isfinite(fd) and math.isfinite(fa)):
             return [("non-finite: " + "+".join(m["kinds"]), "%s: non-finite energy or force (energy %r / %r, force %r)" % (what, ep[0], em[0], fa))]
         # rounding of the energy itself limits what a difference quotient can resolve
-        tol = 2e-6 + 2e-5 * max(abs(fd), abs(fa)) + 16 * 2.2e-16 * abs(e0[0]) / H
+        tol = 2e-6 + 2e-5 * max(abs(fd), abs(fa)) + 16 * 2.2e-16 * abs(e0[0]) / H + 0.2 * trunc
         if abs(fd - fa) > tol:
             kind = "atom outside every group" if rec["atom"] in m["outside"] else "atom of the variable"
             return [("gradient mismatch: " + "+".join(m["kinds"]) + ("/" + m["group_option"] if m["group_option"] != "none" else ""),
